@@ -377,7 +377,7 @@ func c16GenVerdict(t *rapid.T) harness.Decision {
 	case 0:
 		return harness.Decision{Kind: "smtp", Code: 554, Enh: [3]int{5, 6, 0}, Msg: "message refused"}
 	case 1:
-		return harness.Decision{Kind: "plain", Msg: "disk full"}
+		return flavoured(t, "verdict", harness.Decision{Kind: "plain", Msg: "disk full"})
 	}
 	return harness.Decision{}
 }
